@@ -1,10 +1,10 @@
 #!/bin/bash
-# seed_confirm.sh <worktree-name> <property> [test names...] : confirm a sub-agent's seeded change in its scratch worktree
+# seed_confirm.sh <worktree-name> <seed-id> <property> [test names...] : confirm a sub-agent's seeded change in its scratch worktree
 #  (1) patch applies to a clean tree and the library compiles, (2) listed existing tests pass with it,
-#  (3) demo fails with the change and passes without. Writes /verif/seeded/<name>/{patch.diff,demo.cc,build.txt,notes.md,confirm.log}
+#  (3) demo fails with the change and passes without. Writes /verif/seeded/<seed-id>/{patch.diff,demo.cc,build.txt,notes.md,confirm.log}
 set -u
-N=$1; P=$2; shift 2; TESTS="$@"
-W=/tmp/mut/$N; O=/verif/seeded/$N
+WN=$1; N=$2; P=$3; shift 3; TESTS="$@"
+W=/tmp/mut/$WN; O=/verif/seeded/$N
 mkdir -p $O; cp $W/out/patch.diff $W/out/demo.cc $W/out/build.txt $W/out/notes.md $O/ 2>/dev/null
 L=$O/confirm.log; : > $L
 cd $W || exit 2
@@ -12,7 +12,7 @@ git checkout -q -- src && git apply --check $O/patch.diff >>$L 2>&1 || { echo "P
 BUILD=$(grep -v '^\s*$' $O/build.txt | grep -m1 'g++\|clang++')
 echo "== original tree" >>$L
 make -C src -j8 >>$L.make 2>&1 || { echo "ORIGINAL BUILD FAILED" | tee -a $L; exit 1; }
-( cd $W && cp $O/demo.cc . && eval "$BUILD" ) >>$L 2>&1
+( cd $W && eval "$BUILD" ) >>$L 2>&1
 DEMO=$(echo "$BUILD" | sed -n 's/.*-o \([^ ]*\).*/\1/p'); [ -z "$DEMO" ] && DEMO=demo
 ( cd $W && timeout 900 ./$DEMO ) >>$L 2>&1; RC0=$?
 echo "demo on original: rc=$RC0" | tee -a $L
@@ -27,3 +27,4 @@ for t in $TESTS; do
 done
 rm -f $L.make
 [ $RC0 -eq 0 ] && [ $RC1 -ne 0 ] && echo "CONFIRMED demo separates" | tee -a $L
+git checkout -q -- src
